@@ -72,11 +72,14 @@ def apply_mutant(root, m):
     path = os.path.join(root, m["file"])
     with open(path) as f:
         src = f.read()
-    edits = m["edits"] if "edits" in m else [(m["old"], m["new"])]
-    for old, new in edits:
-        if src.count(old) != 1:
-            raise RuntimeError("mutant %s/%s: pattern occurs %d times in %s" % (m["pid"], m["name"], src.count(old), m["file"]))
-        src = src.replace(old, new)
+    edits = m["edits"] if "edits" in m else [(m["old"], m["new"]) + ((m["nth"], m["of"]) if "nth" in m else ())]
+    for e in edits:
+        old, new = e[0], e[1]
+        nth, of = (e[2], e[3]) if len(e) > 2 else (0, 1)
+        if src.count(old) != of:
+            raise RuntimeError("mutant %s/%s: pattern occurs %d times in %s (expected %d)" % (m["pid"], m["name"], src.count(old), m["file"], of))
+        parts = src.split(old)
+        src = old.join(parts[: nth + 1]) + new + old.join(parts[nth + 1 :])
     with open(path, "w") as f:
         f.write(src)
 
@@ -98,7 +101,7 @@ def run_suite(root):
 def mutants(check, pids, with_suite, only=None):
     from selftest.mutants import MUTANTS
 
-    scratch = os.path.join(_scratch_root(), "verif-mutant-tree")
+    scratch = os.path.join(_scratch_root(), "verif-mutant-tree-%s" % (os.environ.get("VERIF_MUTANT_LANE", "0")))
     survived = []
     rows = []
     for m in MUTANTS:
@@ -153,5 +156,9 @@ def main(what, rest, check):
     if what == "mutants":
         only = [o[5:] for o in opts if o.startswith("only=")]
         return mutants(check, pids, "suite" in opts, only or None)
-    print("selftest determinism|mutants", file=sys.stderr)
+    if what == "seeded":
+        from selftest import seeded
+
+        return seeded.main(rest, check)
+    print("selftest determinism|mutants|seeded", file=sys.stderr)
     return 2
